@@ -1073,6 +1073,8 @@ def _dir_check(case):
             classes.append("feat_" + case["feat_dtype"])
         if case.get("nonfinite"):
             classes.append("nonfinite_features")
+        if case.get("lobe_override") is not None:
+            classes.append("utterance_with_more_than_2048_windows")
         with warnings.catch_warnings():
             warnings.simplefilter("ignore")
             if illegal:
@@ -1176,6 +1178,11 @@ def _dir_large_cases(draw, tier):
             "fmt": draw(st.sampled_from(["idx", "default"])), "prefix": draw(st.sampled_from(["", "p-"])),
             "save_lay": draw(st.one_of(st.none(), st.fixed_dictionaries({"feat": st.sampled_from(SAVE_LAYS), "ali": st.sampled_from(["contiguous", "offset", "strided"]),
                                                                          "ref": st.sampled_from(SAVE_LAYS)})))}
+    if draw(st.integers(0, 3)) == 0:
+        # one utterance cut into more than 2048 one-frame windows (fixed policy, lobe 0)
+        c.update({"policy": "fixed", "dim": "T", "size": draw(st.sampled_from([2049, 2060, 2500] if not big else [2049, 2060, 4100])),
+                  "lobe_override": 0, "save_lay": None})
+        return c
     # two cases in three vary the number of utterances, one the length of one utterance
     dim, _ = L.dim_size_from(c, ["utts", "utts", "T"], [16])
     if dim == "utts":
@@ -1233,6 +1240,8 @@ def _dir_large_expand(c):
                     ref.remove(last)
                     ref.append(last)
         utts.append({"T": T, "ali": ali, "ref": ref})
+    if c.get("lobe_override") is not None:
+        lobe = c["lobe_override"]
     return dict(c, utts=utts, lobe=lobe)
 
 
@@ -1249,7 +1258,9 @@ subcheck("C10", "chunk_dir_cli", lambda tier: gen.weighted((10, _dir_cases(tier)
              "saved as non-contiguous / offset views, float64 features, isolated +-inf feature values, and the command run a second time "
              "over its own complete or half-deleted output; one case in eleven has 15..17, 31..33, 63..65, 127..129 (thorough: also "
              "255..257) utterances, or one utterance of 15..17, 127..129, 1023..1025, 2049 frames (thorough: every threshold) with a lobe "
-             "giving at most about 140 chunks, expanded from (seed, utterance) by a pure integer hash",
+             "giving at most about 140 chunks, expanded from (seed, utterance) by a pure integer hash; one large case in four cuts one "
+             "utterance of 2049..2500 (4100) frames into one-frame windows (more than 2048 chunks of one utterance)",
          required_classes=["policy_fixed", "policy_ali", "policy_ref", "validated", "padded_chunk", "ref_chunk_with_token",
-                           "saved_view", "feat_float64", "nonfinite_features", "rerun_same", "rerun_partial"],
+                           "saved_view", "feat_float64", "nonfinite_features", "rerun_same", "rerun_partial",
+                           "utterance_with_more_than_2048_windows"],
          timeout_s=3000)(_dir_check_any)
